@@ -78,6 +78,12 @@ func (p *processor) Execute(db *DB) *DB {
 		db = db.executeScopes()
 	}
 
+	// a scope may hand back a new session (Session, Debug, WithContext): go on with one instance of it, or
+	// everything the callbacks keep on the statement (the started transaction) lands on throwaway copies
+	if db.clone > 0 {
+		db = db.getInstance()
+	}
+
 	var (
 		curTime           = time.Now()
 		stmt              = db.Statement
